@@ -41,6 +41,37 @@ def rules(ctx):
     c166(ctx)
     c167(ctx)
     c168(ctx)
+    c169(ctx)
+
+
+def c169(ctx):
+    R = "C16.9"
+    ctx.declare(R, "a descending element is inverted whole, whatever its length: the writer's call of reverse_encoding depends on the direction alone "
+                   "(an element that is just its terminator byte -- the empty string, unit -- must still sort after every longer value)")
+    n = 0
+    for f in sorted(ctx.prog.fns.values(), key=lambda f: f.key):
+        if f.crate != "tuple_key" or not re.search(r"^tuple_key::TupleKey::", f.skey) or "{closure" in f.skey:
+            continue
+        for p_ in P.call_points(f, r"^tuple_key::reverse_encoding$"):
+            n += 1
+            extra = []
+            for bb, lab, srcs in K.guards(f, p_):
+                if any(x["k"] == "call" and re.search(r"tuple_key::Direction as core::cmp::PartialEq>::(eq|ne)$", x["callee"]) for x in srcs) and \
+                        not any(x["k"] == "bin" for x in srcs):
+                    continue
+                if any(x["k"] == "discr" for x in srcs) and not any(x["k"] in ("bin", "call") for x in srcs):
+                    continue        # `match dir { Reverse => .. }`
+                extra.append(bb)
+            ctx.check(R, f, "inverted-whatever-its-length", not extra, "reverse_encoding is applied whenever the direction is Reverse",
+                      "%s inverts a descending element only under a further condition: an element for which the condition fails keeps its ascending "
+                      "bytes and sorts on the wrong side of every other value of the column" % f.skey, pt=p_)
+            t = P.term_at(f, p_)
+            whole = any(x["k"] == "agg" and (x.get("adt") or "").endswith("RangeFrom") for x in P.origins(f, t["args"][0])) or \
+                any(x["k"] == "call" and re.search(r"index_mut$", x["callee"]) and any(y["k"] == "agg" and (y.get("adt") or "").endswith("RangeFrom") for y in P.origins(f, x["t"]["args"][1]))
+                    for x in P.origins(f, t["args"][0]))
+            ctx.check(R, f, "inverted-to-the-end", whole, "the inverted slice runs from the element's first byte to the end of the buffer",
+                      "%s does not invert buf[start..]" % f.skey, pt=p_)
+    ctx.floor(R, "writer-side reverse_encoding sites", n, 1)
 
 
 ENC = re.compile(r"::(append_to|extend|extend_with_key|extend_field_number|field_number|append|builder|build|finish|tuple_key|unit|bytes|string|"
